@@ -25,6 +25,8 @@ var c11Templates = []c11Template{
 	{`a = $3`, 3, func(r drvRow, a []string) bool { return r["a"] == a[2] }},
 	{`a = "x" & ^ b = $1`, 1, func(r drvRow, a []string) bool { return r["a"] == "x" && !has(r, "b", a[0]) }},
 	{`a = "y"`, 0, func(r drvRow, a []string) bool { return r["a"] == "y" }},
+	{`a = $1 | b = $1`, 1, func(r drvRow, a []string) bool { return has(r, "a", a[0]) || has(r, "b", a[0]) }},
+	{`^ a = $2 & b = $2 & a = $1`, 2, func(r drvRow, a []string) bool { return !has(r, "a", a[1]) && has(r, "b", a[1]) && has(r, "a", a[0]) }},
 }
 
 func has(r drvRow, c, v string) bool {
@@ -47,7 +49,9 @@ func c11PickArgs(n int) []string {
 }
 
 func HarnessC11Bind() {
-	rows := []drvRow{{"a": "x", "b": "p"}, {"a": "y", "b": "q"}, {"a": "x"}, {"a": "yy", "b": "p"}}
+	// values shared between columns and an empty value, so that an unbound or misbound
+	// occurrence of a placeholder changes the answer
+	rows := []drvRow{{"a": "x", "b": "p"}, {"a": "y", "b": "q"}, {"a": "x"}, {"a": "yy", "b": "p"}, {"a": "", "b": "x"}, {"a": "p", "b": ""}}
 	path := verifTempPath("c11.updog")
 	drvBuild(path, rows)
 	d := newUpdogDriver()
